@@ -156,6 +156,9 @@ def endtoend(chk):
         ("f(x{P}) > y", "f(x) > y", "x"),
         ("g(a{P}) > f > x", "g(a) > f > x", "a"),
         ("g(a{P}) > f(i) > y", "g(a) > f(i) > y", "a"),
+        # the only condition sits on a call BELOW the outermost one
+        ("g > f(i{P}) > x", "g > f(i) > x", "i"),
+        ("g(a) > f(x{P}) > y", "g(a) > f(x) > y", "x"),
     ]
     n_events = 0
     for (ptxt, pfn) in preds:
